@@ -53,7 +53,11 @@ classes = [
         enum('Alignment', ['AlignLeft', 'AlignRight'], flag=True, alias='AlignmentFlag')]),
     cls('QObject', props=[prop('objectName', 'QString', 'objectName', 'setObjectName', 'objectNameChanged')],
         signals=[meth('objectNameChanged', args=['QString'])]),
+    cls('QFont', object=False, gadget=True, enums=[enum('StyleStrategy', ['PreferDefault', 'NoAntialias'])],
+        props=[prop('family', 'QString', 'family', 'setFamily'), prop('pointSize', 'int', 'pointSize', 'setPointSize'),
+               prop('bold', 'bool', 'bold', 'setBold'), prop('italic', 'bool', 'italic', 'setItalic')]),
     cls('QWidget', supers=['QObject', 'QPaintDevice'], props=[
+        prop('font', 'QFont', 'font', 'setFont'),
         prop('windowTitle', 'QString', 'windowTitle', 'setWindowTitle', 'windowTitleChanged'),
         prop('enabled', 'bool', 'isEnabled', 'setEnabled'), prop('visible', 'bool', 'isVisible', 'setVisible')],
         signals=[meth('windowTitleChanged', args=['QString'])]),
@@ -66,7 +70,6 @@ classes = [
     cls('QTableView', supers=['QAbstractItemView']), cls('QTreeView', supers=['QAbstractItemView']),
     cls('QTabWidget', supers=['QWidget']),
     cls('QAbstractButton', supers=['QWidget']), cls('QPushButton', supers=['QAbstractButton']),
-    cls('QFont', object=False, gadget=True, enums=[enum('StyleStrategy', ['PreferDefault', 'NoAntialias'])]),
     cls('QKeySequence', object=False, gadget=True, enums=[enum('StandardKey', ['UnknownKey', 'Open'])]),
     cls('QSizePolicy', object=False, gadget=True, enums=[enum('Policy', ['Fixed', 'Minimum'])]),
     cls('QHeaderView', supers=['QAbstractItemView']), cls('QAbstractItemModel', supers=['QObject']),
@@ -84,7 +87,7 @@ classes = [
            meth('ovl', args=['int']), meth('ovl', args=['QString']),                  # true overload
            meth('lvl'), meth('lvl', args=['int']), meth('lvl', args=['QString']),     # default argument AND overload
            meth('peaked'), meth('peaked', args=['int']), meth('peaked', args=['int', 'int']),   # two default arguments
-           meth('picked', args=['TSub*']), meth('moded', args=['Mode'])],
+           meth('picked', args=['TSub*']), meth('moded', args=['Mode']), meth('fontPicked', args=['QFont'])],
         slots=[meth('act', args=['int']), meth('actText', args=['QString']), meth('actTwo', args=['int', 'int']),
                meth('actFlag', args=['bool']), meth('actPtr', args=['TSource*']), meth('poke')],
         methods=[meth('twice', 'int', ['int']), meth('label', 'QString', [])]),
